@@ -112,6 +112,11 @@ def do(e, op):
             return extrema_interpolated_phase(sig, p, t, r, d)
         if k == 'recompute_edges':
             return recompute_edges(table(), e['thr'] if isinstance(e['thr'], dict) else {})
+        if k == 'recompute_edges_lax':
+            # the usual use: laxer thresholds for the edges than at detection time (the table may hold no burst at all)
+            lax = e.setdefault('thr_lax', {'amp_fraction_threshold': 0., 'amp_consistency_threshold': 0., 'period_consistency_threshold': 0.,
+                                           'monotonicity_threshold': 0., 'min_n_cycles': 1})
+            return recompute_edges(table(), lax)
         if k == 'limit_df':
             return limit_df(table(), fs, start=op[1], stop=op[2], reset_indices=op[3])
         if k == 'epoch_df':
@@ -202,7 +207,7 @@ def run_sequence(sh, case, driver='sequence'):
                 break
     for v in vs:
         sh.violate(case, v, driver)
-    shared = sum(1 for o in ops if o[0] in ('features', 'features_other_center', 'burst_features', 'recompute_edges', 'group2', 'group3',
+    shared = sum(1 for o in ops if o[0] in ('features', 'features_other_center', 'burst_features', 'recompute_edges', 'recompute_edges_lax', 'group2', 'group3',
                                             'limit_df', 'epoch_df', 'plot_summary', 'shape', 'cyclepoints'))
     sample = {k: case[k] for k in ('fs', 'f_range', 'thr', 'bk', 'fek', 'center', 'method', 'ops', 'readonly')}
     sh.case_done(case, len(ops) >= 2 and shared >= 2, sample=sample)
@@ -233,7 +238,7 @@ def gen_ops(rng, method, n, nsamp, fs):
         elif r < 0.61:
             ops.append(('phase_shared',))
         elif r < 0.68:
-            ops.append(('recompute_edges',) if method == 'cycles' else ('features',))
+            ops.append((('recompute_edges',) if rng.random() < 0.5 else ('recompute_edges_lax',)) if method == 'cycles' else ('features',))
         elif r < 0.74:
             ops.append(('limit_df', 0.25, round(dur * 0.75 * 4) / 4, bool(rng.random() < 0.6)))
         elif r < 0.79:
@@ -263,6 +268,8 @@ def make_case(rng):
     method = str(rng.choice(['cycles', 'amp', 'amp']))
     if method == 'cycles':
         thr = gen.gen_thresholds_cycles(rng, full=rng.random() < 0.6)
+        if rng.random() < 0.3:
+            thr.update(monotonicity_threshold=1.0, amp_consistency_threshold=0.95, min_n_cycles=5)     # no cycle bursts
         bk = None
     else:
         thr, bk, _ = gen.gen_amp_options(rng, lo)
